@@ -211,6 +211,15 @@ Theorem C18_proj_ineq_spec : forall (F : OF) (d : nat), (0 < d)%nat ->
 Proof. exact proj_ineq_hjk. Qed.
 Print Assumptions C18_proj_ineq_spec.
 
+(* the step between the eigen-decomposition (oracle) and the rebuild: the clipped eigenvalue list is non-negative for EVERY input list, is the
+   input when that is non-negative (physical generators unchanged) and is all zeros when every eigenvalue is negative; the source's clipping
+   loop is proved equal to [clip_neg] on every run (coq/gen/C18_Equiv.v, C18_gen_proj_ineq) *)
+Theorem C18_proj_ineq_clip : forall (F : OF) (l : list F),
+  Forall (fun x => kle F (c0 F) x) (clip_neg l) /\ (Forall (fun x => kle F (c0 F) x) l -> clip_neg l = l) /\
+  (Forall (fun x => kle F x (c0 F) /\ x <> c0 F) l -> clip_neg l = map (fun _ => c0 F) l) /\ length (clip_neg l) = length l.
+Proof. exact clip_neg_spec. Qed.
+Print Assumptions C18_proj_ineq_clip.
+
 (* the certificate the check evaluates on K' (real symmetric embedding): X = output, Y = input.  With slack eps, delta it bounds
    the distance to every PSD Z; exact form: X is THE nearest PSD point, and a PSD input is left unchanged (X = Y) *)
 Theorem C18_psd_certificate : forall (F : OF) k (X Y : rmat F), symmetric F k X -> symmetric F k Y ->
